@@ -32,3 +32,66 @@ package http
 //@   ensures fresh(s) && s.Mux != nil
 //@ func (s *Server) Port() (p)
 //@   pure
+
+// ---------------------------------------------------------------- JSON helpers (encoding/json is assumed, not verified)
+//@ func JSONEncode(v) (buf, err)
+//@   trusted
+//@   pure
+//@   ensures err == nil ==> buf != nil
+//@ func JSONDecode(r, v) (err)
+//@   trusted
+//@   requires r != nil && v != nil
+//@   modifies stream(r), *v
+
+// ---------------------------------------------------------------- /characteristics, /accessories, /identify (C09, C10, C11, C13)
+// srvOK: the server's collaborators exist and every characteristic of its container is well typed
+//@ pred srvOK(srv) = srv != nil && srv.context != nil && srv.container != nil && srv.mutex != nil && listed(srv.container) && membersOK()
+
+//@ func (srv *Server) getCharacteristic(aid, iid) (c)
+//@   requires srv != nil && srv.container != nil && listed(srv.container)
+//@   pure
+//@   ensures c != nil ==> dbmember(ref(c)) && c.ID == iid
+//@   loop 0
+//@     invariant idx: 0 <= loopidx && loopidx <= len(srv.container.Accessories)
+//@   loop 1
+//@     invariant idx: 0 <= loopidx && loopidx <= len(ranged()) && a != nil && len(ranged()) == len(a.Services) && forall(i, 0, len(ranged()), ranged()[i] == a.Services[i]) && forall(j, 0, len(a.Services), a.Services[j] != nil && forall(k, 0, len(a.Services[j].Characteristics), a.Services[j].Characteristics[k] != nil && dbmember(ref(a.Services[j].Characteristics[k]))))
+//@   loop 2
+//@     invariant idx: 0 <= loopidx && loopidx <= len(ranged()) && s != nil && len(ranged()) == len(s.Characteristics) && forall(i, 0, len(ranged()), ranged()[i] == s.Characteristics[i]) && forall(k, 0, len(s.Characteristics), s.Characteristics[k] != nil && dbmember(ref(s.Characteristics[k])))
+
+// GET: one entry per requested id, in order; found ids carry the value the getter returns, and when any id is unknown
+// (207) every entry carries a status. PUT: a write reaches updateValue only through UpdateValueFromConnection (remote
+// path, permission checked there), a subscription is recorded only on a characteristic that permits events
+// (precondition of Session.Subscribe). The handler is protected: it requires a verified session (C01).
+//@ func (srv *Server) Characteristics(w, r)
+//@   requires srvOK(srv) && w != nil && r != nil && r.Body != nil
+//@   requires verified: verified(sessOf(r))
+//@   modifies heap, callcount, sink(w), status(w), stream(r.Body), subs
+//@   opaque wellTyped, finiteBounds
+//@   assert count before WriteJSON#1: len(arr) == len(strs)
+//@   assert allStatus before WriteJSON#1: err ==> forall(i, 0, len(arr), arr[i].Status != nil)
+//@   assert noStatus before WriteJSON#1: !err ==> forall(i, 0, len(arr), arr[i].Status == nil)
+//@   loop 0
+//@     invariant idx: 0 <= loopidx && loopidx <= len(strs) && len(arr) == loopidx && (cap(arr) == 0 || !existed(arr))
+//@     invariant srv: srv.context != nil && srv.container != nil && srv.mutex != nil && conn == old(conn)
+//@     invariant lst: listed(srv.container)
+//@     invariant mem: membersOK()
+//@     invariant ok: !err ==> forall(i, 0, len(arr), arr[i].Status == nil)
+//@   loop 1
+//@     invariant idx: 0 <= loopidx && loopidx <= len(arr) && len(arr) == len(strs) && err
+//@     invariant done: forall(i, 0, loopidx, arr[i].Status != nil)
+//@   loop 2
+//@     invariant idx: 0 <= loopidx && loopidx <= len(ranged())
+//@     invariant srv: srv.context != nil && srv.container != nil && srv.mutex != nil && resp != nil
+//@     invariant lst: listed(srv.container)
+//@     invariant mem: membersOK()
+
+//@ func (srv *Server) Accessories(w, r)
+//@   requires srvOK(srv) && w != nil && r != nil
+//@   requires verified: verified(sessOf(r))
+//@   modifies sink(w), status(w), held(srv.mutex)
+
+//@ func (srv *Server) Identify(w, r)
+//@   requires srv != nil && srv.container != nil && w != nil && r != nil && forall(i, 0, len(srv.container.Accessories), srv.container.Accessories[i] != nil)
+//@   modifies heap, callcount, status(w)
+//@   loop 0
+//@     invariant idx: 0 <= loopidx && loopidx <= len(ranged()) && forall(i, 0, len(ranged()), ranged()[i] != nil)
